@@ -330,7 +330,7 @@ def verify_shape(ctx):
     slices = slicing_sites(ctx, vb)
     S = verify_samples(ctx, vb, [32] + [n for _, _, n in slices])
     macs = [bb2 for bb2, _ in calls(vb, ("Mac::verify_slice", "Mac::new_from_slice"))]
-    ctx.floor(RV, "comparisons of signed.len() with constants in cookie::verify", len(S.cmp), 1, vb.loc)
+    ctx.floor(RV, "length tests (comparisons of signed.len() with constants, checked splits) in cookie::verify", len(S.cmp) + len(S.decided_switches), 1, vb.loc)
     ctx.check(bool(macs) and all(S.reachable(32, bb2) for bb2 in macs) and not any(S.reachable(31, bb2) for bb2 in macs), RV, "C02/verify-shape/min-length", vb.loc,
               reason="expected rejection of inputs shorter than the 32-byte tag and acceptance of 32-byte inputs: MAC reachable for len 31: %s, for len 32: %s"
                      % (any(S.reachable(31, bb2) for bb2 in macs), all(S.reachable(32, bb2) for bb2 in macs)),
